@@ -34,14 +34,81 @@ def geom_column(kind_idx, shift, n=NROWS):
     return G.make_array(kind, [shape_at(kind, (r + shift) % n) for r in range(n)])
 
 
+# --------------------------------------------------------------------------
+# non-geometry columns of every storage class.  The model knows two kinds of column (KGeom k,
+# KPlain); a plain column is plain whatever holds it: a numpy block (int / float / bool /
+# datetime64 / object) or a pandas EXTENSION array that is not a geometry (str, category, the
+# nullable Int64 / boolean / Float64, tz-aware datetime, period, interval, sparse, arrow-backed).
+# The label of a plain column selects its storage: name -> (maker(n, shift), Dask can carry it,
+# parquet can carry it).  (Dask's own meta_nonempty cannot make an interval column, pyarrow cannot
+# write interval / sparse: nothing to do with geometry, those are used on pandas only.)
+# --------------------------------------------------------------------------
+def _flavours():
+    import pandas as pd
+    return {
+        'name_str': (lambda n, s: [f'site-{i + s}' for i in range(n)], True, True),
+        'kind_cat': (lambda n, s: pd.Categorical(['abc'[(i + s) % 3] for i in range(n)]), True, True),
+        'cnt_Int64': (lambda n, s: pd.array([i + s if (i + s) % 3 else None for i in range(n)], dtype='Int64'), True, True),
+        'flag_boolean': (lambda n, s: pd.array([bool((i + s) % 2) if i % 3 else None for i in range(n)], dtype='boolean'), True, True),
+        'val_Float64': (lambda n, s: pd.array([(i + s) / 2 if i % 4 else None for i in range(n)], dtype='Float64'), True, True),
+        'ts_tz': (lambda n, s: pd.date_range('2020-01-01', periods=n, tz='Europe/Paris') + pd.Timedelta(days=s), True, True),
+        'per_period': (lambda n, s: pd.period_range('2020-01', periods=n, freq='M') + s, True, True),
+        'n_arrow': (lambda n, s: pd.array([i + s for i in range(n)], dtype='int64[pyarrow]'), True, True),
+        's_arrow': (lambda n, s: pd.array([f's{i + s}' for i in range(n)], dtype='string[pyarrow]'), True, True),
+        'ivl_interval': (lambda n, s: pd.interval_range(s, s + n), False, False),
+        'sp_sparse': (lambda n, s: pd.arrays.SparseArray([0] * (n - 1) + [1 + s]), True, False),
+        'obj_object': (lambda n, s: _object_array([(i + s, 'x') for i in range(n)]), False, False),
+        # numpy blocks other than int64
+        'f_float': (lambda n, s: (np.arange(n) + s) / 4, True, True),
+        'flag_bool': (lambda n, s: (np.arange(n) + s) % 2 == 0, True, True),
+        'ts_naive': (lambda n, s: (pd.date_range('2020-01-01', periods=n) + pd.Timedelta(days=s)).values, True, True),
+    }
+
+
+def _object_array(values):
+    a = np.empty(len(values), dtype=object)
+    for i, v in enumerate(values):
+        a[i] = v
+    return a
+
+
+_FLAVOURS = {}
+
+
+def flavours(scope='pandas'):
+    """labels of the plain-column storages usable in `scope`: 'pandas' (all), 'dask', 'parquet'"""
+    if not _FLAVOURS:
+        _FLAVOURS.update(_flavours())
+    return [k for k, (_m, d_ok, p_ok) in _FLAVOURS.items()
+            if scope == 'pandas' or (scope == 'dask' and d_ok) or (scope == 'parquet' and d_ok and p_ok)]
+
+
+def is_extension_flavour(name):
+    return name in flavours() and name not in ('f_float', 'flag_bool', 'ts_naive', 'obj_object')
+
+
+def unsorted_permutation(n):
+    """a permutation of 0..n-1 that is NOT sorted (so that Dask's sort_values / set_index really
+    shuffle), fixed by n alone"""
+    if n == NROWS:
+        return (np.arange(n) * 3 + 1) % n
+    import math
+    m = next(m for m in range(3, n + 3) if math.gcd(m, n) == 1) if n > 2 else 1
+    return (np.arange(n) * m + 1) % n
+
+
 def build_dict(cols, n=NROWS):
     """cols: [(name, kind_idx | None, shift)] -> dict of columns (insertion order kept)"""
     data = {}
+    fl = flavours() and _FLAVOURS
     for name, k, shift in cols:
         if k is None:
-            # 'v' is a permutation of 0..n-1 that is NOT sorted, so that Dask's sort_values /
-            # set_index really shuffle
-            data[name] = (np.arange(n) * 3 + 1) % n if name == 'v' else np.arange(n) * 10 + shift
+            if name == 'v':
+                data[name] = unsorted_permutation(n)
+            elif name in fl:
+                data[name] = fl[name][0](n, shift)
+            else:
+                data[name] = np.arange(n) * 10 + shift
         else:
             data[name] = geom_column(k, shift, n)
     return data
@@ -185,9 +252,17 @@ def observe_dask(x, keep=None):
             return ('badtype', f'ddf.geometry.name={gn!r} but meta.geometry.name={meta[2]!r}')
     parts = []
     got_frames = []
+    wide = x.npartitions > WIDE_ABOVE
+    if wide:
+        # wide frames: all partitions of the collection itself in ONE pass (map_partitions over
+        # the collection; the per-partition route below costs one graph optimisation per partition)
+        grabbed = grab_partitions(x)
+        if grabbed is not None:
+            got_frames = grabbed
+            parts = [C.Some(observe(p)) for p in grabbed]
     # partition i of the collection itself (to_delayed() may optimise a repartition away and
     # show another partitioning than the one cx / partition_bounds / map_partitions work on)
-    for i in range(x.npartitions):
+    for i in range(x.npartitions if not parts else 0):
         try:
             p = x.partitions[i].compute(scheduler='synchronous')
             parts.append(C.Some(observe(p)))
@@ -221,6 +296,29 @@ def observe_dask(x, keep=None):
 
 COMPUTE_ASSERTIONS = [0]
 PART_ERRORS = []
+WIDE_ABOVE = 8
+
+
+def grab_partitions(x):
+    """the partitions of the collection `x` as the pandas objects its graph produces, in one
+    synchronous pass: map_partitions hands every partition to a function that keeps it (the run is
+    single-process, scheduler='synchronous').  None when the pass raises or does not visit every
+    partition exactly once."""
+    import pandas as pd
+    store = {}
+
+    def grab(p, partition_info=None):
+        i = partition_info['number'] if partition_info else 0
+        store.setdefault(i, []).append(p)
+        return pd.DataFrame({'i': [i]})
+    try:
+        x.map_partitions(grab, meta=pd.DataFrame({'i': pd.Series([], dtype='int64')}),
+                         enforce_metadata=False).compute(scheduler='synchronous')
+    except Exception:  # noqa: BLE001
+        return None
+    if sorted(store) != list(range(x.npartitions)) or any(len(v) != 1 for v in store.values()):
+        return None
+    return [store[i][0] for i in range(x.npartitions)]
 
 
 def is_bad(o):
@@ -267,7 +365,7 @@ def derive_other(df, recipe):
 def _plain_numeric_col(df):
     from spatialpandas.geometry import GeometryDtype
     for c, dt in zip(df.columns, df.dtypes):
-        if not isinstance(dt, GeometryDtype) and np.issubdtype(dt, np.number):
+        if isinstance(dt, np.dtype) and dt.kind in 'iuf':
             return c
     return None
 
